@@ -9,7 +9,7 @@ LEVEL = 'exploration'
 RULE = ('case = list of 0-8 (non-empty key, value) text pairs (alphabet rich in "=&+%; #" space, NUL, non-ASCII, repeated keys by '
         'drawing keys from a small per-case pool) + an encoding spelling per character (harness encoder: raw if unreserved, "+" or %20 '
         'for space, %XX upper/lower hex, optionally over-encoding unreserved characters) used as QUERY_STRING and as an '
-        'application/x-www-form-urlencoded POST body (Content-Length or chunked, delivered in full or in short reads of 1-40 bytes; Content-Type with and without a charset parameter; every request is served twice on one application and the handler mutates what it got in between; before the first access to the form the handler may have read all / part of request.body, moved it to its end, or probed request.json). Plus two threads decoding a 4-pair and a 300 / 1100-field query string or form at the same time under every single-preemption schedule of the small one (deterministic scheduler. Oracle: Request.query / Request.forms == expected map '
+        'application/x-www-form-urlencoded POST body (Content-Length or chunked, delivered in full or in short reads of 1-40 bytes; Content-Type with and without a charset parameter; every request is served twice on one application and the handler mutates what it got in between; before the first access to the form the handler may have read all / part of request.body, moved it to its end, or probed request.json; a Request.copy() taken after the form was read must decode the same pairs). Plus two threads decoding a 4-pair and a 300 / 1100-field query string or form at the same time under every single-preemption schedule of the small one (deterministic scheduler. Oracle: Request.query / Request.forms == expected map '
         '(single -> str, repeated -> list in submission order), Request.params == {**query, **forms}, parse_qsl() list mode == the pair list. '
         'Totality: parse_qsl(any text) and Request.query on any QUERY_STRING return without raising. Non-trivial = a repeated key, or a key/value '
         'containing one of "=&+%;" / space / non-ASCII / empty value; distinct by case hash.')
@@ -78,6 +78,7 @@ def case_st(draw):
             'chunked': draw(st.booleans()), 'method': draw(st.sampled_from(['POST', 'PUT'])),
             'ctype': draw(st.sampled_from(CTYPES)),
             'pattern': draw(st.one_of(st.just([]), st.lists(st.integers(1, 9), min_size=1, max_size=4), st.lists(st.integers(1, 40), min_size=1, max_size=4))),
+            'copy': draw(st.integers(0, 4)) == 0,
             'pre': draw(st.sampled_from([None, None, None, 'read_all', 'seek_end', 'json', ['read', 1], ['read', 7], ['read', 10000]]))}
 
 
@@ -124,6 +125,13 @@ def check_case(ctx, case):
         seen['params'] = _plain(rq.params)
         seen['GET'] = _plain(rq.GET)
         seen['POST'] = _plain(rq.POST)
+        if case.get('copy'):
+            # a copy of the request taken after the original has parsed its form: the copy decodes the same pairs
+            c = rq.copy()
+            seen['copy_forms'] = _plain(c.forms)
+            seen['copy_query'] = _plain(c.query)
+            seen['copy_params'] = _plain(c.params)
+            return 'ok'
         for d in (rq.query, rq.forms, rq.params):
             for k, v in list(d.items()):
                 if isinstance(v, list):
@@ -136,10 +144,13 @@ def check_case(ctx, case):
     headers = {'Content-Type': ctype} if ctype else {}
     eq, ef = expected_map(q), expected_map(f)
     want = {'query': eq, 'GET': eq, 'forms': ef, 'POST': ef, 'params': {**eq, **ef}}
+    if case.get('copy'):
+        want.update({'copy_forms': ef, 'copy_query': eq, 'copy_params': {**eq, **ef}})
+        ctx.count('request_copied_after_the_form_was_read')
     for reqno in (0, 1):
         if case['chunked']:
             from vlib.encoders import encode_chunked
-            wire, _ = encode_chunked(body, [7, 3, 50])
+            wire, _ = encode_chunked(body, [11, 3, 47, 26, 250], [{'upper': bool(case['style'][0] % 2), 'zeros': case['style'][0] % 3}])      # chunk sizes with hex letters in either case
             env = make_environ(case['method'], '/q', qs=qs, stream=FragStream(wire, case.get('pattern') or []), content_length=None, headers=dict(headers, **{'Transfer-Encoding': 'chunked'}))
         else:
             # the form arrives as a socket delivers it: read(n) may return fewer bytes than asked for
@@ -277,6 +288,10 @@ def run(ctx):
             for nkeys in (300, 1100):
                 ctx.guarded(check_threaded, {'threaded': True, 'via': via, 'n': nkeys})
         # the body stream moved in every way before the first access to the form
+        for chunked in (False, True):
+            for pre in (None, 'read_all', ['read', 7]):
+                ctx.guarded(check_case, {'query': [['q', '1'], ['q', '2']], 'form': [['first', 'one two'], ['k', 'é&='], ['first', '2']], 'style': [1, 1, 2], 'chunked': chunked,
+                                         'method': 'POST', 'ctype': 'application/x-www-form-urlencoded', 'pre': pre, 'copy': True})
         for pattern in ([1], [7], [16], [37], [3, 1]):
             for chunked in (False, True):
                 ctx.guarded(check_case, {'query': [['q', '1']], 'form': [['name', 'J%'], ['k', 'é&='], ['name', '2'], ['last', 'x' * 30]], 'style': [0, 1, 2], 'chunked': chunked,
